@@ -414,6 +414,8 @@ REGISTRY["C15"]["engines"] = [engine_khist.run, engine_kcompose.run]
 # the composed DAG's compound-priority table (C06 / C07 for DAGs derived by compose)
 REGISTRY["C07"]["engines"] = list(REGISTRY["C07"]["engines"]) + [engine_kcompose.run]
 REGISTRY["C07"]["rule"] += " || compose() derivations: compound-priority table of the composed DAG vs Priority.v (K-compose)"
+REGISTRY["C20"]["engines"] = list(REGISTRY["C20"]["engines"]) + [engine_kcompose.run]
+REGISTRY["C20"]["rule"] += " || composed DAGs called inside another DAG's describing function (K-compose)"
 REGISTRY["C06"]["engines"] = list(REGISTRY["C06"]["engines"]) + [engine_kcompose.run]
 REGISTRY["C06"]["rule"] += " || compose() derivations: compound-priority table of the composed DAG vs Priority.v (K-compose)"
 REGISTRY["C15"]["rule"] = HIST_RULE + " || compose() derivations: the original DAG's value and node table before and after composing and running the composed DAG (K-compose)"
